@@ -11,6 +11,7 @@ go:  `<sx> @@ <obs interp> @@ <obs vm> @@ <obs vm+peephole>`,  obs = `<outcome>|
 Direct oracles (independent of the model, judged first):
   * `engines-differ`      interpreter observation ≠ VM observation
   * `peephole-differs`    VM observation ≠ VM + peephole observation
+                          (an engine that does not come back within its time bound is observed as `hang|`)
   * `order`               the ids `"#k"` (k ≤ max) in the interpreter's log are not strictly increasing
                           (ids are numbered in the evaluation order the language definition prescribes)
   * `evaluated-twice`     an id k ≤ max occurs more than once
@@ -97,7 +98,14 @@ def judge (op : List String) (go : String) : Verdict :=
     let ids := (logIds logsI).filter (· ≤ maxId)
     let tags0 := forms.filter (· ≠ "")
     -- direct oracles
-    if oi ≠ ov && ov == oo && ((readProgram sx).map programHasUnboxedCond).getD false then
+    -- shape of the known finding: from the S-expression, or (program out of the fragment: not
+    -- serialised) from the flag the harness computed on the real AST with the same predicate
+    let oofFlag := "#unboxed-cond"
+    let unboxedCond :=
+      if sx.startsWith "oof:" then sx.endsWith oofFlag
+      else ((readProgram sx).map programHasUnboxedCond).getD false
+    let sx := if sx.startsWith "oof:" && sx.endsWith oofFlag then (sx.dropEnd oofFlag.length).toString else sx
+    if oi ≠ ov && ov == oo && unboxedCond then
       .violation "conditional-result-not-boxed" ("vm observation = interpreter observation = " ++ oi) tags0
     else if oi ≠ ov then .violation "engines-differ" ("vm observation = interpreter observation = " ++ oi) tags0
     else if ov ≠ oo then .violation "peephole-differs" ("vm+peephole observation = vm observation = " ++ ov) tags0
@@ -126,6 +134,11 @@ def judge (op : List String) (go : String) : Verdict :=
             if vtag == "model-internal" || vtag == "model-out-of-fuel" then .modelDiff ("vm-model:" ++ mv) (tag :: tags0)
             else if mv == ov then .ok ("!nt" :: "vm-model" :: tag :: tags0)
             else .modelDiff ("vm-model:" ++ mv) ("vm-model" :: tag :: tags0)
-  | _ => .skip "bad-go-result"
+  | _ =>
+    -- the harness reports an escaped Go panic of the whole operation as `panic`, a run that did not
+    -- come back within the per-operation timeout as `hang` (every run has a computation limit)
+    if go == "panic" then .violation "go-panic-or-internal" "no Go panic escapes the runtime" []
+    else if go == "hang" then .violation "engine-hang" "every run ends within the computation limit" []
+    else .skip "bad-go-result"
 
 def main : IO Unit := runDriver judge
